@@ -4,7 +4,9 @@ import (
 	"encoding/json"
 	"flag"
 	"fmt"
+	"go/ast"
 	"go/constant"
+	"go/token"
 	"go/types"
 	"golang.org/x/tools/go/ssa"
 	"os"
@@ -125,6 +127,8 @@ func main() {
 		os.Exit(cmdSweep(os.Args[2:]))
 	case "sqlinv":
 		os.Exit(cmdSQLInv(os.Args[2:]))
+	case "mutsites":
+		os.Exit(cmdMutSites(os.Args[2:]))
 	default:
 		fmt.Fprintln(os.Stderr, "unknown command")
 		os.Exit(2)
@@ -884,6 +888,73 @@ func cmdSQLInv(args []string) int {
 	sort.Strings(lines)
 	for _, l := range lines {
 		fmt.Println(l)
+	}
+	return 0
+}
+
+// cmdMutSites: the mutation sites (binary operators) inside the functions that carry a proved contract for a property:
+// one line per site "file<TAB>byte offset<TAB>old operator<TAB>new operator<TAB>function". Used by tools/mutation.py
+// (thorough tier): each site is mutated in a scratch copy and the property's check must report it.
+func cmdMutSites(args []string) int {
+	fs := flag.NewFlagSet("mutsites", flag.ExitOnError)
+	prop := fs.String("prop", "", "property id")
+	repo := fs.String("repo", "/repo", "repository")
+	verif := fs.String("verif", "/verif", "verif dir")
+	fs.Parse(args)
+	pkgs, err := contractPackages(*repo, *prop)
+	if err != nil || len(pkgs) == 0 {
+		return 2
+	}
+	P, err := LoadProgram(*repo, pkgs, filepath.Join(*verif, "contracts"))
+	if err != nil {
+		fmt.Fprintln(os.Stderr, err)
+		return 2
+	}
+	InstantiateSchemas(P)
+	swap := map[token.Token]token.Token{token.LSS: token.LEQ, token.LEQ: token.LSS, token.GTR: token.GEQ, token.GEQ: token.GTR,
+		token.EQL: token.NEQ, token.NEQ: token.EQL, token.ADD: token.SUB, token.SUB: token.ADD, token.LAND: token.LOR, token.LOR: token.LAND}
+	var keys []string
+	for k := range P.CS.Funcs {
+		keys = append(keys, k)
+	}
+	sort.Strings(keys)
+	seen := map[string]bool{}
+	for _, k := range keys {
+		c := P.CS.Funcs[k]
+		if c.Trusted || c.SchemaOf != "" || !hasProp(c.Props, *prop) {
+			continue
+		}
+		fn := P.FindFunc(c.PkgPath, c.Key)
+		if fn == nil || fn.Syntax() == nil {
+			continue
+		}
+		ast.Inspect(fn.Syntax(), func(n ast.Node) bool {
+			be, ok := n.(*ast.BinaryExpr)
+			if !ok {
+				return true
+			}
+			nw, ok := swap[be.Op]
+			if !ok {
+				return true
+			}
+			if be.Op == token.ADD {
+				// string concatenation in messages is not worth a mutant
+				if bl, isLit := be.X.(*ast.BasicLit); isLit && bl.Kind == token.STRING {
+					return true
+				}
+				if bl, isLit := be.Y.(*ast.BasicLit); isLit && bl.Kind == token.STRING {
+					return true
+				}
+			}
+			pos := P.Fset.Position(be.OpPos)
+			id := fmt.Sprintf("%s:%d", pos.Filename, pos.Offset)
+			if seen[id] {
+				return true
+			}
+			seen[id] = true
+			fmt.Printf("%s\t%d\t%s\t%s\t%s\t%d\n", pos.Filename, pos.Offset, be.Op, nw, k, pos.Line)
+			return true
+		})
 	}
 	return 0
 }
